@@ -14,7 +14,7 @@ from __future__ import annotations
 
 import ast
 
-from ..core import AnalysisError, dotted, norm_src, walk_no_nested
+from ..core import AnalysisError, dotted, enclosing, norm_src, walk_no_nested
 from ..cfg import CFG, control_deps
 from ..dataflow import ReachingDefs
 from ..flagwalk import FlagWalk, loud_default, F, U, T
@@ -62,6 +62,8 @@ def run(ctx):
     rep.rule("C22.R2", "returned iterate is the tested one", 3)
     rep.rule("C22.R3", "non-convergence cannot reach the normal exit silently", 3)
     rep.rule("C22.R4", "df/dx pairing per finite-difference method", 3)
+    rep.rule("C22.R5", "iterate isolation: a map that updates its argument in place never receives the live iterate", 2)
+    r5_isolation(ctx)
     for rel, fname, tols, kind in HELPERS:
         fn = ctx.repo.get(rel, fname)
         C = f"{rel}:{fname}"
@@ -181,6 +183,127 @@ def run(ctx):
     r4_approx_fprime(ctx)
 
 
+FP_HELPERS = ("fixed_point_iteration", "fixed_point_iteration_with_momentum")
+FRESH_CALLS = ("copy", "array", "zeros_like", "concatenate", "asarray_chkfinite", "deepcopy")
+
+
+def _views_and_mutations(fn):
+    """statements of `fn` that write through its first parameter (directly or through slice views / tuple unpacking of views)."""
+    if isinstance(fn, ast.Lambda) or not fn.args.args:
+        return []
+    views = {fn.args.args[0].arg}
+    changed = True
+    assigns = [n for n in walk_no_nested(fn) if isinstance(n, ast.Assign)]
+    while changed:
+        changed = False
+        for a in assigns:
+            vals = a.value.elts if isinstance(a.value, ast.Tuple) else [a.value]
+            tgts = a.targets[0].elts if isinstance(a.targets[0], ast.Tuple) and isinstance(a.value, ast.Tuple) and len(a.targets) == 1 else None
+            pairs = list(zip(tgts, vals)) if tgts and len(tgts) == len(vals) else [(t, a.value) for t in a.targets]
+            for t, v in pairs:
+                base = v
+                while isinstance(base, ast.Subscript):
+                    base = base.value
+                is_view = isinstance(base, ast.Name) and base.id in views and (isinstance(v, ast.Name) or isinstance(v, ast.Subscript))
+                if is_view and isinstance(t, ast.Name) and t.id not in views:
+                    views.add(t.id)
+                    changed = True
+    muts = []
+    # a view name that is re-bound to a fresh value before the write is no longer a view: flow-insensitive here, so a name
+    # bound both to a view and to a fresh array is only counted when the write dominates no fresh rebinding (conservative:
+    # require that every plain assignment of the name is a view assignment)
+    fresh_bound = set()
+    for a in assigns:
+        for t in a.targets:
+            for tt in (t.elts if isinstance(t, ast.Tuple) else [t]):
+                if isinstance(tt, ast.Name) and tt.id in views:
+                    vals = a.value
+                    base = vals
+                    while isinstance(base, ast.Subscript):
+                        base = base.value
+                    if isinstance(a.value, ast.Tuple):
+                        continue
+                    if not (isinstance(base, ast.Name) and base.id in views):
+                        fresh_bound.add((tt.id, a.lineno))
+    for n in walk_no_nested(fn):
+        if isinstance(n, ast.AugAssign):
+            t = n.target
+            base = t
+            while isinstance(base, ast.Subscript):
+                base = base.value
+            if isinstance(base, ast.Name) and base.id in views and not any(nm == base.id and ln < n.lineno for nm, ln in fresh_bound):
+                muts.append(n)
+        elif isinstance(n, ast.Assign):
+            for t in n.targets:
+                if isinstance(t, ast.Subscript):
+                    base = t
+                    while isinstance(base, ast.Subscript):
+                        base = base.value
+                    if isinstance(base, ast.Name) and base.id in views and not any(nm == base.id and ln < n.lineno for nm, ln in fresh_bound):
+                        muts.append(n)
+    return muts
+
+
+def r5_isolation(ctx):
+    rep = ctx.rep
+    mod = ctx.repo.module(DSV)
+    # 1. the maps the library hands to each helper
+    inplace = {h: [] for h in FP_HELPERS}
+    sites = 0
+    for rel, m in sorted(ctx.repo.modules.items()):
+        for call in [n for n in ast.walk(m.tree) if isinstance(n, ast.Call) and (dotted(n.func) or "").split(".")[-1] in FP_HELPERS and n.args]:
+            h = dotted(call.func).split(".")[-1]
+            sites += 1
+            a0 = call.args[0]
+            encl = enclosing(call, (ast.FunctionDef,))
+            target = None
+            if isinstance(a0, ast.Lambda):
+                target = a0
+            elif isinstance(a0, ast.Name) and encl is not None:
+                for n in ast.walk(encl):
+                    if isinstance(n, ast.FunctionDef) and n.name == a0.id:
+                        target = n
+            if target is None:
+                rep.note(f"C22.R5: map passed at {rel}:{call.lineno} not resolved; treated as possibly in-place")
+                inplace[h].append((rel, call.lineno, "unresolved map"))
+                continue
+            muts = _views_and_mutations(target)
+            if muts:
+                inplace[h].append((rel, call.lineno, norm_src(muts[0])))
+    if sites < 3:
+        raise AnalysisError(f"only {sites} call sites of the fixed-point helpers found (3 confirmed by hand)")
+    # 2. the helpers
+    for h in FP_HELPERS:
+        fn = ctx.repo.get(DSV, h)
+        C = f"{DSV}:{h}"
+        fname = fn.args.args[0].arg
+        calls = [n for n in ast.walk(fn) if isinstance(n, ast.Call) and isinstance(n.func, ast.Name) and n.func.id == fname]
+        if not calls:
+            raise AnalysisError(f"{C}: no evaluation of the map `{fname}` found")
+        for c in calls:
+            arg = c.args[0] if c.args else None
+            fresh = isinstance(arg, ast.BinOp) or (isinstance(arg, ast.Call) and (dotted(arg.func) or getattr(arg.func, "attr", "")).split(".")[-1] in FRESH_CALLS)
+            if fresh:
+                rep.ok("C22.R5", C, f"{norm_src(c)}: the map receives a fresh array")
+                continue
+            if not isinstance(arg, ast.Name):
+                rep.note(f"C22.R5: {C}: argument `{norm_src(arg)}` not classified")
+                rep.ok("C22.R5", C, f"{norm_src(c)}: argument not a plain iterate name", verdict="not decided", trivial=True)
+                continue
+            other_reads = [n for n in ast.walk(fn) if isinstance(n, ast.Name) and n.id == arg.id and isinstance(n.ctx, ast.Load) and n is not arg]
+            if other_reads and inplace[h]:
+                rel, ln, st = inplace[h][0]
+                rep.bad("C22.R5", C, c, f"the live iterate `{arg.id}` is handed to the map and read again afterwards (error estimate / next iterate), but the map passed at "
+                        f"{rel}:{ln} updates its argument in place (`{st}`): the measured error compares the iterate with itself and the tolerance test is void",
+                        f"{DSV}:{c.lineno}")
+            elif other_reads:
+                rep.ok("C22.R5", C, f"{norm_src(c)}: live iterate passed, but no map handed to this helper writes through its argument")
+            else:
+                rep.ok("C22.R5", C, f"{norm_src(c)}: `{arg.id}` is not read after the evaluation")
+    if not any(inplace.values()):
+        rep.note("C22.R5: no in-place map found any more; the isolation requirement is vacuous")
+
+
 def _killer(cfg, rd, tol):
     """A store that overwrites the only variable through which `tol` flows (dead-store diagnosis)."""
     if "." in tol:
@@ -295,7 +418,18 @@ MUTANTS = [
          old='    raise ValueError(\n        f"Fixed-point iteration did not converge after {k + 1} iterations with error: {error}"\n    )',
          new='    return x, k + 1, error', expect="C22.R3"),
 ]
+MUTANTS += [
+    dict(id="c22-r5-seed", canary=True, what="[seeded by sub-agent] fixed_point_iteration: defensive copies removed, the in-place map of DualStormerVerlet._step gets the live iterate", file=DSV,
+         old="        x_new = fun(x.copy())\n", new="        x_new = fun(x)\n", expect="C22.R5",
+         edits=[(DSV, "        x_new = fun(x.copy())\n", "        x_new = fun(x)\n"),
+                (DSV, "        error = np.linalg.norm((x_new.copy() - x.copy()) / scale) / len(scale) ** 0.5", "        error = np.linalg.norm((x_new - x) / scale) / len(scale) ** 0.5"),
+                (DSV, "        x = x_new.copy()\n", "        x = x_new\n")]),
+    dict(id="c22-r5-2", what="momentum helper evaluates the map on the live extrapolated iterate", file=DSV,
+         old="        xk1 = fun(yk.copy())", new="        xk1 = fun(yk)", expect="C22.R5"),
+]
 NEUTRAL = [
+    dict(id="c22-n-r5", canary=True, what="only the redundant copies in the error expression removed; the map still gets a copy", file=DSV,
+         old="        error = np.linalg.norm((x_new.copy() - x.copy()) / scale) / len(scale) ** 0.5", new="        error = np.linalg.norm((x_new - x) / scale) / len(scale) ** 0.5"),
     dict(id="c22-n1", canary=True, what="fixed_point_iteration: scale computed in two steps", file=DSV,
          old="        scale = atol + np.maximum(np.abs(x), np.abs(x_new)) * rtol\n",
          new="        m = np.maximum(np.abs(x), np.abs(x_new))\n        scale = atol + m * rtol\n"),
